@@ -44,6 +44,9 @@ class Source:
                 elif isinstance(n, ast.Assign) and len(n.targets) == 1 and isinstance(n.targets[0], ast.Name):
                     s.consts[(path, n.targets[0].id)] = n.value
                     s.gconsts.setdefault(n.targets[0].id, []).append((path, n.value))
+                elif isinstance(n, ast.AnnAssign) and isinstance(n.target, ast.Name) and n.value is not None:
+                    s.consts[(path, n.target.id)] = n.value
+                    s.gconsts.setdefault(n.target.id, []).append((path, n.value))
         for path, m in s.mods.items():
             for n in ast.walk(m):
                 for c in ast.iter_child_nodes(n):
@@ -104,17 +107,21 @@ class Source:
         out = []
         for n in s.classes[cls][1].body:
             if isinstance(n, ast.AnnAssign) and isinstance(n.target, ast.Name):
-                d = v = c = None; has = False
+                d = v = c = None; has = False; noinit = False
                 if n.value is not None:
                     if isinstance(n.value, ast.Call) and ast.unparse(n.value.func) == "attr.ib":
                         for k in n.value.keywords:
                             if k.arg == "default": d = k.value; has = True
                             elif k.arg == "validator": v = k.value
                             elif k.arg == "converter": c = k.value
+                            elif k.arg in ("eq", "repr", "hash", "order", "kw_only", "metadata"): pass
+                            elif k.arg == "init":
+                                if not (isinstance(k.value, ast.Constant) and k.value.value in (True, False)): raise Unsupported("attr.ib(init=<expr>)", n, s.classes[cls][0])
+                                if k.value.value is False: noinit = True
                             else: raise Unsupported("attr.ib(%s=...)" % k.arg, n, s.classes[cls][0])
                     else:
                         d = n.value; has = True
-                out.append((n.target.id, d, v, c, has))
+                out.append((n.target.id, d, v, c, has) if not noinit else (n.target.id, d, v, c, 'noinit'))
         return out
 
     def span(s, node):
